@@ -147,6 +147,9 @@ type MemFS struct {
 	Calls    []Call
 	Hook     func(ctx context.Context, method, path string)
 	NextETag *string // when set: the entity tag Create gives to what it stores
+	// EchoStat: Stat reports the resource under the name it was asked for (as LocalFileSystem does), while
+	// ReadDir lists the collection under its stored name
+	EchoStat bool
 }
 
 type MemFile struct {
@@ -214,6 +217,9 @@ func (m *MemFS) Stat(ctx context.Context, name string) (*webdav.FileInfo, error)
 		return nil, webdav.NewHTTPError(404, fmt.Errorf("not found"))
 	}
 	fi := f.Info
+	if m.EchoStat {
+		fi.Path = name
+	}
 	return &fi, nil
 }
 
